@@ -631,6 +631,7 @@ pub fn execute_scn(scn: &Scn, rep: &mut RunReport) {
     let mut cancelled_seen: Vec<u64> = Vec::new();
     let mut unanswered: Vec<(u64, u8)> = Vec::new(); // (id, order number)
     let mut answered_ids: Vec<u64> = Vec::new();
+    let mut kept_orders: Vec<(u64, i64, RuntimeValue)> = Vec::new();
     let batch_orders: Vec<u8> = scn.stmts.iter().flat_map(|(st, _)| if let Stmt::Batch(v) = st { v.clone() } else { Vec::new() }).collect();
     let mut promises: Vec<HostPromise> = Vec::new();
     let mut keep: Vec<RuntimeValue> = Vec::new();
@@ -694,7 +695,19 @@ pub fn execute_scn(scn: &Scn, rep: &mut RunReport) {
                     }
                     rep.bump("cancellations_delivered", 1);
                 }
-                drop(pending);
+                // the host keeps every order (payload included) until the run is over and reads the
+                // payloads again at every later report: they stay what the program passed
+                for (kid, kk, rv) in kept_orders.iter() {
+                    let now = show_value(rv.value());
+                    if now != format!("{{\"k\":{}}}", kk) && rep.failure.is_none() {
+                        fail(rep, "kept_order_payload_changed", now.clone(), json!({"id": kid, "order": kk, "payload_now": now, "trace": trace}));
+                    }
+                    rep.bump("kept_order_payloads_reread", 1);
+                }
+                for o in pending {
+                    let k = api::get_property(o.payload.value(), "k").ok().and_then(|v| v.as_number()).unwrap_or(-1.0) as i64;
+                    kept_orders.push((o.id.0, k, o.payload));
+                }
                 // ── lockstep with the model ──
                 let model_new = std::mem::take(&mut model.newly_issued);
                 if new_orders != model_new && rep.failure.is_none() {
@@ -806,6 +819,16 @@ pub fn execute_scn(scn: &Scn, rep: &mut RunReport) {
             Ok(StepResult::Complete(v)) => {
                 let got = show_value(v.value());
                 trace.push_str("complete;");
+                if scn.gc_threshold != 0 || scn.force_collect {
+                    h.interp.collect();
+                }
+                for (kid, kk, rv) in kept_orders.iter() {
+                    let now = show_value(rv.value());
+                    if now != format!("{{\"k\":{}}}", kk) && rep.failure.is_none() {
+                        fail(rep, "kept_order_payload_changed", now.clone(), json!({"id": kid, "order": kk, "payload_now": now, "trace": trace}));
+                    }
+                    rep.bump("kept_order_payloads_reread", 1);
+                }
                 // everything the model still owes?
                 let tail = model.run();
                 let expected = format!("s:{}", model.log.join(";"));
